@@ -281,7 +281,8 @@ example : reverseF [.int .int 1, .nil, .str [97]] = [.str [97], .nil, .int .int 
 /-! ## uniq -/
 
 /-- `uniq` keeps the first occurrence of each class of equal elements, in order. Equality is Go's
-(`ArrF.same`: same dynamic type and contents, i.e. same encoding — `1` and `1.0` differ):
+(`ArrF.same`: same dynamic type and contents, i.e. same canonical encoding — `1` and `1.0` differ, two maps
+with the same entries in different orders do not):
 the result is a sublist of the input, no two kept elements are equal, every input element is equal
 to a kept one, and an element appended to the input is kept exactly when nothing equal precedes it. -/
 theorem uniq_spec (xs : List GoVal) :
@@ -290,19 +291,19 @@ theorem uniq_spec (xs : List GoVal) :
     (∀ x ∈ xs, ∃ y ∈ uniqF xs, same y x = true) ∧
     (∀ x, uniqF (xs ++ [x]) = uniqF xs ++ (if xs.any (same x ·) then [] else [x])) := by
   refine ⟨uniqOn_sublist _ _ _, ?_, ?_, ?_⟩
-  · exact (uniqOn_pairwise GoVal.enc [] xs).imp (by intro a b h; simpa [same] using h)
+  · exact (uniqOn_pairwise MapOrder.canonEnc [] xs).imp (by intro a b h; simpa [same] using h)
   · intro x hx
-    rcases uniqOn_support GoVal.enc [] xs x hx with h | ⟨y, hy, hk⟩
+    rcases uniqOn_support MapOrder.canonEnc [] xs x hx with h | ⟨y, hy, hk⟩
     · simp at h
     · exact ⟨y, hy, by simpa [same] using hk⟩
   · intro x
-    have hc : (xs.map GoVal.enc).contains x.enc = xs.any (same x ·) := by
+    have hc : (xs.map MapOrder.canonEnc).contains (MapOrder.canonEnc x) = xs.any (same x ·) := by
       induction xs with
       | nil => rfl
       | cons z zs ih =>
-        show ((z :: zs).map GoVal.enc).contains x.enc = ((same x z) || zs.any (same x ·))
+        show ((z :: zs).map MapOrder.canonEnc).contains (MapOrder.canonEnc x) = ((same x z) || zs.any (same x ·))
         rw [List.map_cons, List.contains_cons, ih]; rfl
-    have h := uniqOn_append_singleton GoVal.enc [] xs x
+    have h := uniqOn_append_singleton MapOrder.canonEnc [] xs x
     rw [List.contains_nil, Bool.false_or, hc] at h
     exact h
 
@@ -384,10 +385,12 @@ theorem as_array (t t' : Ty) (xs : List GoVal) (kvs : List (GoVal × GoVal)) (kt
     convert (.slice t xs) .anys = .ok (.slice .any (xs.map GoVal.toLiquid)) ∧
     convert (.array t' xs) .anys = convert (.slice t xs) .anys ∧
     convert (.mapSlice kvs) .anys = convert (.slice .any (kvs.map (·.2))) .anys ∧
-    convert (.map kt vt kvs) .anys = convert (.slice .any (kvs.map (·.2))) .anys ∧
+    (MapOrder.manyClass4 kvs = false →       -- a map: its values in the order of `SortedMapKeys`, whatever the order of `kvs`
+      convert (.map kt vt kvs) .anys = convert (.slice .any ((MapOrder.sortedEntries kvs).map (·.2))) .anys) ∧
     (b - a ≤ 1000000 → convert (.range a b) .anys = .ok (.slice .any (rangeInts a b))) := by
   refine ⟨by simp [convert, GoVal.toLiquid, convElems], by simp [convert, GoVal.toLiquid, convElems],
-    by simp [convert, GoVal.toLiquid, convElems], by simp [convert, GoVal.toLiquid, convElems], ?_⟩
+    by simp [convert, GoVal.toLiquid, convElems],
+    fun hm => by simp [convert, GoVal.toLiquid, convElems, MapOrder.sortedMapEntries, hm], ?_⟩
   intro h
   have h1 : ¬ b - a + 1 > 10000000 := by omega
   have h2 : ¬ b - a > 1000000 := by omega
